@@ -161,6 +161,9 @@ def reformat_files(
         return
 
     # Multiple files case
+    if inplace and "-" in files:
+        # Checked before the first file is written, not when stdin's turn comes.
+        raise ValueError("Cannot use `inplace` with stdin")
     if not inplace and output and output != "-":
         raise ValueError(
             "Cannot specify output file when processing multiple files (use --inplace instead)"
